@@ -12,7 +12,7 @@ import gen
 from codec import M
 from sansldap.asn1 import ASN1Reader
 
-LEAN_TARGETS = ["Verif.Props.C01"]
+LEAN_TARGETS = ["Verif.Props.C01", "Verif.Props.SmallMore"]
 LEVEL = "proof"
 ASSUMPTIONS = [
     "text fields are surrogate-free str (valid UTF-8 in the model)",
